@@ -15,33 +15,68 @@
 #ifndef VK_OUT_W
 #define VK_OUT_W 80
 #endif
-static char vk_tape[VK_OUT_LINES][VK_OUT_W];
+/* array of structs, NOT char[LINES][W]: CBMC 6.11 mis-propagates constants read through a pointer to a row of a
+ * two-dimensional char array (concrete reproducer in DESIGN.md section 9) */
+struct vk_line { char c[VK_OUT_W]; };
+static struct vk_line vk_tape[VK_OUT_LINES];
 static int vk_tape_n = 0, vk_tape_col = 0, vk_tape_overflow = 0;
 static int vk_opened = 0, vk_closed = 0;
 
-/* A "%s\n" write becomes ONE tape line holding a raw copy of the first VK_OUT_W-1 bytes of the argument (C-string
- * semantics apply when the tape is read).  All write indices are concrete; the source is read up to its NUL only.
- * A line whose first byte is '\n' stands for two line breaks (the writers' block separator "\n" + "\n"). */
+/* Layout oracle: the harness fills vk_expect_len[] with the exact length of every output line of the format being
+ * written (all sizes are concrete).  A "%s\n" write becomes ONE tape line: exactly that many bytes are copied and the
+ * line is terminated at a CONCRETE position; the source is asserted to end there too and to contain no earlier NUL, so
+ * a writer that deviates from the layout is reported, never silently modelled.  -2 marks the writers' block separator
+ * ("\n" + "\n": two line breaks), stored as a tape line starting with '\n'. */
+static int vk_expect_len[VK_OUT_LINES];
 static void vk_line_raw(const char *s, int prefix)
 {
         if (vk_tape_n >= VK_OUT_LINES || vk_tape_col != 0) { vk_tape_overflow = 1; return; }
-        int p = 0;
-        if (prefix >= 0) vk_tape[vk_tape_n][p++] = (char)prefix;
-        int ended = 0;
-        for (int i = 0; p < VK_OUT_W - 1; i++, p++) {   /* write indices concrete; reads stop at the NUL */
-                char ch = 0;
-                if (!ended) { ch = s[i]; if (ch == 0) ended = 1; }
-                vk_tape[vk_tape_n][p] = ch;
+        int p = 0, want = vk_expect_len[vk_tape_n];
+        if (want == -2) {
+                __CPROVER_assert(s[0] == '\n' && s[1] == 0, "C15: block separator where the layout says");
+                vk_tape[vk_tape_n].c[0] = '\n'; vk_tape[vk_tape_n].c[1] = 0; vk_tape_n++;
+                return;
         }
-        vk_tape[vk_tape_n][VK_OUT_W - 1] = 0;
+        if (prefix >= 0) vk_tape[vk_tape_n].c[p++] = (char)prefix;
+        for (int i = 0; i < VK_OUT_W - 1; i++) {
+                if (p < want) {
+                        __CPROVER_assert(s[i] != 0, "C15: output line is as long as the layout says");
+                        vk_tape[vk_tape_n].c[p++] = s[i];
+                }
+        }
+        __CPROVER_assert(p == want && s[want - (prefix >= 0 ? 1 : 0)] == 0, "C15: output line ends where the layout says");
+        vk_tape[vk_tape_n].c[p] = 0;
         vk_tape_n++;
+}
+/* layout of the three formats (nls = name lengths, maxnl = longest name, 60-column blocks) */
+static void vk_layout_fill(int fmt, int ns, int aln, const int *nls, int maxnl)
+{
+        int nblocks = (aln + 59) / 60, t = 0;
+        if (fmt == 1) {
+                for (int s = 0; s < ns; s++) {
+                        vk_expect_len[t++] = 1 + nls[s];
+                        t += nblocks;   /* chunk lines are written character by character (%c), not through this oracle */
+                }
+                return;
+        }
+        if (fmt == 3) { vk_expect_len[t++] = 38; vk_expect_len[t++] = 0; }
+        else {
+                vk_expect_len[t++] = 27; vk_expect_len[t++] = 0; vk_expect_len[t++] = 41; vk_expect_len[t++] = 0;
+                for (int s = 0; s < ns; s++) vk_expect_len[t++] = 7 + maxnl + 32;
+                vk_expect_len[t++] = 0; vk_expect_len[t++] = 2; vk_expect_len[t++] = 0;
+        }
+        for (int b = 0; b < nblocks; b++) {
+                int chunk = (b + 1) * 60 <= aln ? 60 : aln - b * 60;
+                for (int s = 0; s < ns; s++) vk_expect_len[t++] = maxnl + 5 + chunk;
+                vk_expect_len[t++] = -2;
+        }
 }
 static void vk_putc(char c)
 {
         if (vk_tape_n >= VK_OUT_LINES) { vk_tape_overflow = 1; return; }
-        if (c == '\n') { vk_tape[vk_tape_n][vk_tape_col] = 0; vk_tape_n++; vk_tape_col = 0; return; }
+        if (c == '\n') { vk_tape[vk_tape_n].c[vk_tape_col] = 0; vk_tape_n++; vk_tape_col = 0; return; }
         if (vk_tape_col >= VK_OUT_W - 1) { vk_tape_overflow = 1; return; }
-        vk_tape[vk_tape_n][vk_tape_col++] = c;
+        vk_tape[vk_tape_n].c[vk_tape_col++] = c;
 }
 
 /* formats used by the writers: ">%s\n"  "%s\n"  "%c"  "\n".  Dispatched without varargs (CBMC's variadic
@@ -61,7 +96,7 @@ static int vk_fp_chr(FILE *f, const char *fmt, int c)
                 /* no branching on the (symbolic) character: a newline printed through %c is outside the model */
                 __CPROVER_assert((char)c != '\n', "model limit: %c never prints a newline");
                 if (vk_tape_n >= VK_OUT_LINES || vk_tape_col >= VK_OUT_W - 1) vk_tape_overflow = 1;
-                else vk_tape[vk_tape_n][vk_tape_col++] = (char)c;
+                else vk_tape[vk_tape_n].c[vk_tape_col++] = (char)c;
         }
         else __CPROVER_assert(0, "model limit: fprintf format not modelled");
         return 1;
